@@ -34,3 +34,15 @@ REGISTRY.update({
     "C05": _mc("explicit-state enumeration of inputs x complete product of max_iterations, max_shape, rescaling, phasing; predicate oracle on the fit",
                "Every bounded ARG x Mp menu (zero-mutation edges, single-mutation inputs) x H x diploid individuals x {1,2,25} iterations x max_shape {1.5,2,10,1000} x rescaling {off,2,default} x singletons_phased; properness, cap and phase range checked on every fit; the cap is seen binding ~2e5 times per quick run."),
 })
+
+REGISTRY.update({
+    "C13": _mc("explicit-state enumeration of inputs x option product, reference re-implementation of the documented maximization rule",
+               "Every bounded ARG x mutation menu (incl. all-zero) x 2 grids x 2 prior distributions x both probability spaces x 2 eps is run through maximization with return_fit; the chosen timepoint of every node is re-derived from fit.inside by an independent implementation of the documented rule (tie tolerant), ordering index(child)<=index(parent) is checked on every edge."),
+    "C14": _mc("explicit-state exploration of the n-coalescent jump chain on integer partitions (exact rationals) validating a closed form, then every (n,k) row of the real prior table",
+               "The partition chain (states = integer partitions, transitions = mergers) gives exact moments for n<=14 (quick) / 22 (thorough); the closed form it validates is then compared in exact rationals and long double with ConditionalCoalescentTimes for every (n,k), 2<=k<=n<=300 (quick) / 1000 (thorough), both distributions.",
+               "Kingman coalescent; long-double closed form trusted above the rational bound after exact validation below it"),
+    "C15": _mc("explicit-state enumeration of multi-tree inputs x every (sample, locus) missing-data pattern, direct per-tree tally oracle",
+               "Every bounded ARG, plus every variant in which one sample is isolated over one locus, is passed to SpansBySamples / MixturePrior; the (samples in tree, samples below) -> span maps, their totals, and the mixture prior moments are recomputed by a direct tskit tree iteration and the C14 reference."),
+    "C16": _mc("explicit-state enumeration of inputs x complete product of grid sizes 2..40 / explicit grids x distributions x population-size forms, reference cdf oracle",
+               "Every bounded ARG and comb trees up to 12 samples x all integer timepoints 2..40 and 4 explicit grids x {lognorm, gamma} x 5 population sizes (3-epoch history as object and dict): grid monotone from 0, explicit grid returned bit-exactly, every non-sample row equals the normalised diff of an independent cdf (math.erfc / mpmath) to 1e-10, samples have no row."),
+})
